@@ -97,6 +97,8 @@ struct SlotOps {
     void (*default_construct)(void *mem) = nullptr;
     void (*destroy)(void *obj) = nullptr;
     void (*copy_construct)(void *mem, const void *src) = nullptr;
+    void (*copy_construct_nc)(void *mem, void *src) = nullptr; // from a non-const lvalue
+    void (*copy_assign_nc)(void *dst, void *src) = nullptr;
     void (*move_construct)(void *mem, void *src) = nullptr;
     void (*copy_assign)(void *dst, const void *src) = nullptr;
     void (*move_assign)(void *dst, void *src) = nullptr;
@@ -114,6 +116,7 @@ struct SlotOps {
     struct Conv {
         void (*copy)(void *mem, const void *src) = nullptr;
         void (*move)(void *mem, void *src) = nullptr;
+        void (*copy_nc)(void *mem, void *src) = nullptr; // copying conversion from a non-const lvalue
     } conv[MAX_STACKS];
     // group wrap: build this stack from its outer configurations + std::move(inner.backend()); indexed by inner stack
     void (*wrap[MAX_STACKS])(void *mem, const ModelField &outer_cfgs, const void *inner) = {};
